@@ -146,6 +146,16 @@ Section RunProofs.
       unfold C08Run.cache_hit in Hh. destruct (s_cache st) as [h|]; [|discriminate].
       destruct (fpt_eqb h _) eqn:E; [|discriminate]. apply fpt_eqb_spec in E. subst h. reflexivity. Qed.
 
+  (* whatever the invocation looked like: a non-forced run over a record that equals the current
+     fingerprint answers up to date and changes nothing *)
+  Theorem matching_record_noop : check_presence = false ->
+    forall w st, ghas_commands (s_src st) = true -> cfg_force (s_cfg st) = false ->
+    s_cache st = Some (gfp w (s_src st) (s_cfg st)) -> run w false None st = (UpToDate, st).
+  Proof. intros Hp w st Hc Hf Hca. unfold C08Run.run. rewrite Hc. cbn [negb].
+    unfold C08Run.effective_force. rewrite Hf. cbn [orb negb andb].
+    unfold C08Run.cache_hit. rewrite Hca, Hp.
+    replace (fpt_eqb _ _) with true by (symmetry; apply fpt_eqb_spec; reflexivity). reflexivity. Qed.
+
   Theorem force_regenerates : forall w flag st, ghas_commands (s_src st) = true ->
     effective_force flag (s_cfg st) = true ->
     exists st', run w flag None st = (Success, st') /\ up_to_date w st' /\
